@@ -220,7 +220,7 @@ def tverskyAt (S : Nat) (p y : Nat → α) (w : Option (Nat → α)) (alpha beta
 /-- src: functional.py:mi_loss @1065-1077 for one batch item: Parzen responses, joint histogram,
     normalisation, marginals.  `win x c` is the window response of intensity `x` at bin centre `c`,
     `tiny` the literal `1e-5`; `B` bins, `S` samples; with a mask `m` every sample's contribution to the
-    joint histogram is weighted by it (`pw_input.mul(mask)` @1067-1068, repair PENDING-F16BD).
+    joint histogram is weighted by it (`pw_input.mul(mask)` @1067-1068, repair d5da1fc / 4a8506f).
     Returns `(p_joint, p_input, p_target)`. -/
 def miProbs (win : α → α → α) (tiny : α) (B S : Nat) (cen : Nat → α)
     (x y : Nat → α) (m : Option (Nat → α)) : (Nat → Nat → α) × (Nat → α) × (Nat → α) :=
@@ -342,7 +342,7 @@ def pointwiseLoss (kind : Pointwise α) (red : Reduction) (x y : T α) (mask : O
   let _ ← maskedLoss x.shape loss mask                                 -- shape checks of masked_loss
   pure (applyNorm norm (pointwiseCore kind.fn red x.numel x.data y.data (mask.map (expandAs x.shape))))
 
-/-- src: functional.py:ncc_loss @530-580 (repair PENDING-F16BD).  A mask is first broadcast to the image
+/-- src: functional.py:ncc_loss @530-580 (repair d5da1fc / 4a8506f).  A mask is first broadcast to the image
     shape by `masked_loss(torch.ones_like(source), mask, "ncc_loss")` @560-562 (same shape checks and
     broadcasting as for the pointwise losses), flattened per item, and enters the item score as a weight;
     the final reduction is the plain `reduce_loss(loss, reduction)` @579. -/
@@ -595,7 +595,7 @@ def tverskyLoss [HasFloor α] [IntCast α] (pw : α → α) (red : Reduction) (x
 /-- src: functional.py:mi_loss @1014-1053 without random sampling (`num_samples`,
     `sample_ratio` both `None`): shape checks, flattening; the mask `(1|N, 1, …X)` is flattened and
     broadcast over the batch (it weights the joint histogram, `miProbs`; the images themselves are
-    left alone — repair PENDING-F16BD).  Returns `(N, S, input, target, mask)` flattened per item. -/
+    left alone — repair d5da1fc / 4a8506f).  Returns `(N, S, input, target, mask)` flattened per item. -/
 def miPrep (x y : T α) (mask : Option (T α)) (B : Nat) :
     Except String (Nat × Nat × (Nat → α) × (Nat → α) × Option (Nat → α)) := do
   if y.shape.length < 3 then throw "err:value:ndim"                    -- @1014-1015
